@@ -145,6 +145,8 @@ type World struct {
 	lastProgress int
 	contRun      int // consecutive "continue" decisions of the running task
 	hot          bool // the pending scheduling point is an unguarded statement (YieldStmt)
+	gcHook       func() // set when the code under test registered a finalizer (simruntime): a simulated GC cycle
+	inGC         bool
 	ambient      bool // not a run: the world of goroutines started outside any run (see ambientWorld)
 	numCPU       map[string]int // CPU count of each party's machine (drawn when first asked)
 	cpuOverride  int            // > 0: what NumCPU answers regardless of the party (SetNumCPU)
@@ -468,6 +470,12 @@ func Yield() {
 	w := W
 	if w == nil || w.ended || w.cur == nil {
 		return
+	}
+	if w.gcHook != nil && !w.inGC && !w.ambient && w.Tape.Choose(SFault, 400) == 0 {
+		// a garbage-collection cycle happens here: finalizers of what is unreachable now become tasks
+		w.inGC = true
+		w.gcHook()
+		w.inGC = false
 	}
 	w.enter()
 	t := w.cur
@@ -948,4 +956,14 @@ func RunEpoch() uint64 {
 		return 0
 	}
 	return W.Epoch
+}
+
+// SetGCHook registers the function that performs a garbage-collection cycle of the simulated
+// machine (simruntime: it collects, and turns the finalizers that became due into tasks). Once it
+// is set, a cycle happens at tape-chosen scheduling points - about one in 400. Runs of code that
+// registers no finalizer never set it, and nothing changes for them.
+func SetGCHook(f func()) {
+	if W != nil && !W.ended {
+		W.gcHook = f
+	}
 }
